@@ -207,10 +207,17 @@ void call_end();
 void install_signal_handlers();
 extern "C" void urisim_abort_call();   // fail-stop: longjmp out of the library call
 
+// Uninitialised locals of the library must not inherit what earlier calls (or earlier runs in the same worker process) left on the
+// stack: the region the call is about to use is filled with the run's junk byte first. One seed stays one execution, and a read of
+// an unset local sees junk instead of a plausible stale value.
+void poison_stack_shallow();              // 1 KiB below the caller: before every library call
+void poison_stack_deep(size_t bytes);     // once per run / per task start
+
 #define LIBCALL_RUN(stmt_block, completed_var)                          \
     do {                                                                \
         sim::CallCtx* c__ = sim::g.cur;                                 \
         c__->jmp_set = true;                                            \
+        sim::poison_stack_shallow();                                    \
         if (sigsetjmp(c__->jmp, 1) == 0) {                              \
             c__->in_call = true;                                        \
             stmt_block;                                                 \
